@@ -714,10 +714,12 @@ where
                         .members
                         // Down is terminal, so before doing that we ensure the member
                         // is still under suspicion.
-                        // Checking only incarnation is sufficient because to refute
-                        // suspicion the member must increment its own incarnation
+                        // To refute suspicion the member must increment its own
+                        // incarnation. The identity is checked too: the record may
+                        // have been forgotten and re-registered under an older
+                        // identity of the same address since the timer was set
                         .apply_existing_if(as_down.clone(), |member| {
-                            member.incarnation() == incarnation
+                            member.id() == &member_id && member.incarnation() == incarnation
                         })
                     {
                         self.handle_apply_summary(summary, as_down, true, &mut runtime)?;
